@@ -531,7 +531,7 @@ def s7(chk: Check, proj: Project, m, fc) -> None:
 
 def s11_keyword_means_key_is_not_none(chk: Check, proj: Project) -> None:
     chk.rule("S11", "an argument is a keyword argument exactly when it HAS a key (`key is not None`): the wrapper and both validators never decide by the key's truthiness - the empty string is a legal key of a spread mapping (`...d` with d = {'': 5}), Python binds it into **kwargs, and a truthiness test turns it into a positional argument (bound to the first free parameter, or refused with a bogus 'positional argument follows keyword argument')")
-    sites = [("util.template_tag", "_validate_params_with_code"), ("util.template_tag", "_validate_params_with_signature"), ("node", "NodeMeta.__new__")]
+    sites = [("util.template_tag", "_validate_params_with_code"), ("util.template_tag", "_validate_params_with_signature"), ("util.template_tag", "merge_repeated_kwargs"), ("node", "NodeMeta.__new__")]
     n = 0
     for mod_, qn in sites:
         r = proj.try_func(mod_, qn)
